@@ -87,7 +87,7 @@ func newReadOnlySegment(basePath string, baseOffset int64) (ReadOnlySegment, err
 	}
 
 	if ms.idx, err = ms.c.codec.ReadIndex(ms.c.idxPath); err != nil {
-		if !errors.Is(err, codec.ErrDataCorrupted) {
+		if !errors.Is(err, codec.ErrDataCorrupted) && !errors.Is(err, os.ErrNotExist) {
 			return nil, errors.Wrapf(err, "failed to decode segment index file %s", ms.c.idxPath)
 		}
 		slog.Warn("The segment index file is corrupted and the index is being rebuilt.", slog.String("path", ms.c.idxPath))
